@@ -3,7 +3,7 @@
 import os, json, glob, re
 V = os.path.dirname(os.path.dirname(os.path.abspath(__file__)))
 rows = []
-for d in sorted(glob.glob(os.path.join(V, 'seeded', 'C*-m*'))):
+for d in sorted(glob.glob(os.path.join(V, 'seeded', 'C*-m*')) + glob.glob(os.path.join(V, 'seeded', 'C*-audit-*'))):
     m = json.load(open(os.path.join(d, 'meta.json')))
     vh = m.get('verified_here', {})
     files = sorted(set(re.findall(r'^\+\+\+ b/(\S+)', open(os.path.join(d, 'patch.diff')).read(), re.M)))
@@ -18,7 +18,9 @@ for d in sorted(glob.glob(os.path.join(V, 'seeded', 'C*-m*'))):
     what = m.get('what_it_breaks') or m.get('title') or m.get('summary') or m.get('what') or m.get('description') or ''
     what = re.sub(r'\s+', ' ', str(what))[:160]
     ok = vh.get('demo_passes_on_clean_tree') and vh.get('demo_fails_with_patch') and vh.get('existing_suite_passes_with_patch')
-    rows.append((os.path.basename(d), ', '.join(os.path.basename(f) for f in files), what, 'yes' if ok else 'NO', '<br>'.join(caught), m.get('note_here', '')))
+    if 'audit' in os.path.basename(d):
+        m['note_here'] = 'audit patch (no demonstration test; suite result as reported by the audit)'
+    rows.append((os.path.basename(d), ', '.join(os.path.basename(f) for f in files), what, 'yes' if ok else ('suite only' if 'audit' in os.path.basename(d) else 'NO'), '<br>'.join(caught), m.get('note_here', '')))
 with open(os.path.join(V, 'seeded', 'README.md'), 'w') as f:
     f.write('# Seeded changes\n\nEach directory: `patch.diff` (applies to /repo HEAD at the time of the run; never committed there), the demonstration '
             '(`*_test.go.txt`), `meta.json` (the author\'s description plus `verified_here`: what was re-run in this sandbox and what the check printed).\n'
